@@ -8,7 +8,7 @@ From RW Require Import Base.Bytes Base.BytesFacts Fmt.Codec Fmt.CodecFacts Fmt.F
   Wal.CrashInv Wal.CrashFacts0 Wal.CrashFacts1 Wal.CrashFacts2 Wal.CrashFacts3 Wal.CrashFacts4 Wal.CrashFacts5
   Wal.CrashFacts6 Wal.CrashGlue Wal.CrashCalls1 Wal.CrashCalls2 Wal.CrashCalls3 Wal.CrashCalls4 Wal.CrashCalls5
   Wal.CrashCalls6 Wal.CrashCalls7 Wal.CrashCalls8 Wal.CrashCalls9 Wal.CrashCalls10 Wal.CrashThm Wal.LiveDir
-  Gen.Constants.
+  Wal.CrashExamples Wal.CrashExamplesFacts Gen.Constants.
 From Coq Require Import ZifyN ZifyNat ZifyBool Sorted.
 Open Scope N_scope.
 
@@ -935,6 +935,24 @@ Proof.
   pose proof (delete_range_drops c _ _ _ S t f tw mn mx w1 e1 V (ext_fault _ _ _ He1) Ho Ed Hfail' x Hx Hins) as Hdrop.
   destruct (lookup (name_of x) (dk_files (e_disk e1))) as [g|] eqn:El; [|reflexivity].
   rewrite (H2 _ _ El) in Hdrop. discriminate.
+Qed.
+
+(* ---- the example history of LiveDir.v satisfies the guards ---- *)
+Lemma ex_log_ok_5_1 : log_ok (ex_log 5 1). Proof. solve_log_ok. Qed.
+Lemma ex_log_ok_6_1 : log_ok (ex_log 6 1). Proof. solve_log_ok. Qed.
+Lemma ex_log_ok_7_1 : log_ok (ex_log 7 1). Proof. solve_log_ok. Qed.
+
+Lemma hist_live_trunc_ok : hist_ok cfg128 hist_live_trunc.
+Proof.
+  unfold hist_live_trunc, hist_live_head, hist_live_stores. cbn [map app].
+  split; [exact cfg128_ok|]. split; [|unfold short_enough; cbn [length]; lia].
+  repeat (apply Forall_cons; [cbn [hstep_wf sop_ok];
+    first [ exact I
+          | split; [apply Forall_cons; [first [exact ex_log_ok_1_1|exact ex_log_ok_2_1|exact ex_log_ok_3_1|exact ex_log_ok_4_1
+                                              |exact ex_log_ok_5_1|exact ex_log_ok_6_1|exact ex_log_ok_7_1]|apply Forall_nil]
+                   |vm_compute; reflexivity]
+          | unfold two64; lia ]|]).
+  apply Forall_nil.
 Qed.
 
 Print Assumptions live_dir_exact.
